@@ -17,4 +17,16 @@ let excmap _inp impl =
   let m = String.concat "," (List.init 256 (fun c -> Lib_wire.err_str (exc_err (n_of_int c)))) in
   (m, if m = impl then "1" else "0")
 
-let () = Registry.register "explen" explen; Registry.register "excmap" excmap
+(* errmap: the documented modbus errors map to their exception codes, every
+   other error (the library's own transport/configuration errors included) to
+   server-device-failure: herr_code of Model/Server.v *)
+let errmap _inp impl =
+  let code e = string_of_int (int_of_n (herr_code e)) in
+  let hm c = HModbus (n_of_int c) in
+  let l = [HOther; HOther; hm 1; hm 2; hm 3; hm 4; hm 5; hm 6; hm 8; hm 10; hm 11; HOther; HOther;
+           HOther (* a protocol error passed to the map itself: device failure *); HOther; HOther; HOther; HOther;
+           HOther; HOther; HOther; HOther] in
+  let m = String.concat "," (List.map code l) in
+  (m, if m = impl then "1" else "0")
+
+let () = Registry.register "errmap" errmap; Registry.register "explen" explen; Registry.register "excmap" excmap
